@@ -192,6 +192,9 @@ def check_property(pid, tier, seed):
     def mine(oid):
         if pid == "C04":
             return oid.endswith(".safety") or oid.endswith(".panic_free") or oid.startswith("C04.")
+        if pid == "C05":
+            # Verus body-safety obligations include termination (every loop/recursion has a proved `decreases`)
+            return oid.endswith(".safety") or oid.startswith("C05.")
         return oid.startswith(pid + ".")
     def mine_u(u, oid):
         # a body-safety failure (loop invariant, overflow, unreachable!, ...) of a function that serves
